@@ -224,6 +224,9 @@ func TestSim(t *testing.T) {
 			wo.Samples = append(wo.Samples, res.Sample)
 		}
 		if res.HarnessErr != "" {
+			if os.Getenv("VERIF_SHOWLOG") != "" {
+				fmt.Fprintln(os.Stderr, strings.Join(tailLog(res.log, 3000), "\n"))
+			}
 			wo.HarnessErr = append(wo.HarnessErr, fmt.Sprintf("seed %d: %s", seed, res.HarnessErr))
 			if len(wo.HarnessErr) >= 3 {
 				seed++
